@@ -88,5 +88,32 @@ theorem frames_spi_read_empty (fails : Nat → Bool) (w : World) (a : Nat) :
     cases h3 : fails (w.idx + 3) <;>
     simp [lookupRow, normRows, normOps, normRaw, Frames.spi_read_empty, shapeR, errShape, readRegister, World.raw, h0, h1, h2, h3]
 
+/-! ## Read off the translated tables directly (no model in between) -/
+
+def isHigh : Raw → Bool | .csHigh => true | _ => false
+def isLow : Raw → Bool | .csLow => true | _ => false
+
+/-- C20 / C13 read off the TRANSLATED SPI transport directly (no model in between): in every one of
+    the 8 + 16 + 16 executions, the first operation is the falling chip-select edge, and unless that
+    edge itself failed the LAST operation attempted is the rising edge - whatever failed in between -/
+theorem frames_spi_bracket (dev a n : Nat) (v : Byte) :
+    (Frames.spi_write dev a n v ++ Frames.spi_read dev a n v ++ Frames.spi_read_empty dev a n v).all
+      (fun r => (r.2.1.head?.map isLow == some true) &&
+                (r.1.head? == some true || r.2.1.getLast?.map isHigh == some true)) = true := by
+  simp [Frames.spi_write, Frames.spi_read, Frames.spi_read_empty, isHigh, isLow]
+
+/-- C15 read off the translated transports directly: the result is Ok iff no ATTEMPTED operation
+    failed, and otherwise names the FIRST operation that failed (k-th schedule bit set, none before) -/
+def firstFail (fv : List Bool) (nOps : Nat) : Option Nat := (List.range nOps).find? (fun k => fv.getD k false)
+
+theorem frames_first_failure (dev a n : Nat) (v : Byte) :
+    (Frames.i2c_write dev a n v ++ Frames.i2c_read dev a n v ++ Frames.i2c_read_empty dev a n v ++
+     Frames.spi_write dev a n v ++ Frames.spi_read dev a n v ++ Frames.spi_read_empty dev a n v).all
+      (fun r => (r.2.2.map (·.2)) == firstFail r.1 r.2.1.length ||
+                -- (after a failed transfer the release is still attempted; its own failure is not reported)
+                (r.2.2.map (·.2)) == firstFail r.1 (r.2.1.length - 1)) = true := by
+  simp [Frames.i2c_write, Frames.i2c_read, Frames.i2c_read_empty, Frames.spi_write, Frames.spi_read,
+    Frames.spi_read_empty, firstFail, List.range, List.range.loop]
+
 end Thm
 end Bma400
